@@ -78,7 +78,18 @@ func runC08(c *eng.Ctx, tier string) {
 			}
 		}
 		if v, isNil, isE := cond.ErrCheck(); isE && isNil {
-			if call, _ := eng.TupleCall(v); call != nil {
+			call0, _ := eng.TupleCall(v)
+			cands := []*ssa.Call{call0}
+			if call0 != nil {
+				// (the error tested may be that of a call inside a helper that hands it on)
+				if inner := eng.ErrorSource(call0); inner != nil {
+					cands = append(cands, inner)
+				}
+			}
+			for _, call := range cands {
+				if call == nil {
+					continue
+				}
 				if eng.Callee(&call.Call) == getIdentity && len(call.Call.Args) == 2 && eng.OriginX(call.Call.Args[1]) == eng.OriginX(rP) {
 					gates["identity"] = true
 					idCall = call
@@ -94,10 +105,28 @@ func runC08(c *eng.Ctx, tier string) {
 						if u, isU := fnCall.Call.Args[0].(*ssa.UnOp); isU && u.X == target {
 							reqOK = true
 						}
+						// (decoded by a helper that returns the value it decoded into;
+						// instantiation wrappers in between are looked through)
+						cur := fnCall.Call.Args[0]
+						for i := 0; i < 3; i++ {
+							inner, hc := eng.ThroughHelper(cur, func(g *ssa.Function) bool { return g.Blocks != nil })
+							if inner == nil || hc == nil || !eng.IsHelper(hc.Parent(), eng.Callee(&hc.Call)) {
+								break
+							}
+							if eng.Callee(&hc.Call) == call.Parent() {
+								if u, isU := eng.Origin(inner).(*ssa.UnOp); isU && u.X == target {
+									reqOK = true
+								} else if u, isU := inner.(*ssa.UnOp); isU && u.X == target {
+									reqOK = true
+								}
+								break
+							}
+							cur = inner
+						}
 					}
 					bodyOK := p.DependsOn(call.Call.Args[0], func(v ssa.Value) bool {
 						fr, base, isF := eng.LoadedField(v)
-						return isF && fr.Name == "Body" && eng.Origin(base) == ssa.Value(rP)
+						return isF && fr.Name == "Body" && (eng.Origin(base) == ssa.Value(rP) || eng.OriginX(base) == eng.OriginX(rP))
 					})
 					if reqOK && bodyOK {
 						gates["decode"] = true
@@ -138,6 +167,25 @@ func runC08(c *eng.Ctx, tier string) {
 		}
 		_, isC := eng.ConstString(r.Text)
 		code, isK := eng.ConstInt(r.Code)
+		// (text and status may come from a local table of known failures: every row counts)
+		if col, isT := eng.TableColumn(r.Text); !isC && isT {
+			isC = true
+			for _, v := range col {
+				if _, ok := eng.ConstString(v); !ok {
+					isC = false
+				}
+			}
+		}
+		if col, isT := eng.TableColumn(r.Code); !isK && isT {
+			isK = true
+			for _, v := range col {
+				k, ok := eng.ConstInt(v)
+				if !ok || k < 400 || k > 599 {
+					isK = false
+				}
+				code = k
+			}
+		}
 		c.Check(isC, "R-C08-5", r.Fn, r.In.Pos(), "http.Error text "+eng.ValStr(r.Text)+via, "error replies carry constant text only (no secret bytes, no error strings)", "non-constant text")
 		c.Check(isK && code >= 400 && code <= 599, "R-C08-4", r.Fn, r.In.Pos(), "http.Error status "+eng.ValStr(r.Code)+via, "a constant 4xx/5xx status", "")
 	}
@@ -206,12 +254,35 @@ func runC08(c *eng.Ctx, tier string) {
 				return
 			}
 			call, _, _, isCall := eng.CondOf(ifi.Cond, true).BoolCall()
-			if !isCall || !eng.CalleeIs(&call.Call, "errors", "Is") || !eng.SameX(call.Call.Args[0], ferr) || !eng.IsGlobalLoad(call.Call.Args[1], pkgrel, name) {
+			if !isCall || !eng.CalleeIs(&call.Call, "errors", "Is") || !eng.SameX(call.Call.Args[0], ferr) {
 				return
+			}
+			row := -1
+			if !eng.IsGlobalLoad(call.Call.Args[1], pkgrel, name) {
+				// a row of a local (sentinel, status, ...) table scanned in order
+				col, isT := eng.TableColumn(call.Call.Args[1])
+				if !isT {
+					return
+				}
+				for i, v := range col {
+					if eng.IsGlobalLoad(v, pkgrel, name) {
+						row = i
+					}
+				}
+				if row < 0 {
+					return
+				}
 			}
 			blk = ifi.Block().Succs[0]
 			for _, x := range blk.Instrs {
 				if er, ok := errReplyIn(replies, x); ok {
+					if row >= 0 {
+						if col, isT := eng.TableColumn(er.Code); isT && row < len(col) {
+							code, _ = eng.ConstInt(col[row])
+							found = true
+						}
+						continue
+					}
 					code, _ = eng.ConstInt(er.Code)
 					found = true
 				}
